@@ -232,8 +232,11 @@ def main():
 
 def doc_json(req):
     """the document of a request row as JSON text (S-expression → JSON, order-preserving)"""
-    sx = req.split(" ", 4)[4] if req.startswith("pyroundtrip ") else req.split(" ", 5)[5]
-    return sexp_to_json(sx)
+    parts = req.split(" ", 4) if req.startswith("pyroundtrip ") else req.split(" ", 5)
+    want = 5 if req.startswith("pyroundtrip ") else 6
+    if len(parts) < want:
+        return None  # a row about a whole case (e.g. generated code does not compile), no document
+    return sexp_to_json(parts[-1])
 
 
 def sexp_to_json(s):
